@@ -64,11 +64,33 @@ class Gen:
             return "%s::schema::types::%s" % (self.pkg, m.public_name)
         return "%s::%s" % (parent_tag, m.name)
 
+    def expected_type(self, m, byte="const unsigned char"):
+        """documented C++ type of a member accessor's result, or None when no documented name exists (inline composite members)"""
+        if m.kind == "scalar":
+            if m.public_name:
+                return "%s::types::%s" % (self.pkg, m.public_name)
+            if m.is_field and m.target is None:
+                return (BUILTIN_OPT if m.presence == "optional" else BUILTIN)[m.prim]
+            return None
+        if m.kind in ("enum", "set"):
+            return ("%s::types::%s" % (self.pkg, m.public_name)) if m.public_name else None
+        if m.kind in ("composite", "array"):
+            return ("%s::types::%s<%s>" % (self.pkg, m.public_name, byte)) if m.public_name else None
+        return None
+
+    def type_assert(self, m, getter, ind, byte="const unsigned char"):
+        t = self.expected_type(m, byte)
+        if t:
+            self.w("%sstatic_assert(std::is_same<decltype(%s), %s>::value, %s);" % (
+                "    " * ind, getter, t, cstr("accessor `%s` does not return the documented type %s" % (m.name, t))))
+
     def dump_member_ra(self, m, getter, ind, tagctx=None):
         """getter: expression returning the member (e.g. `v0.name()`); tagctx = tag of the member itself when the
         children are to be read through get_by_tag"""
         pad = "    " * ind
         n = cstr(m.name)
+        if tagctx is None and "(c)" not in getter:
+            self.type_assert(m, getter, ind)
         if m.kind in ("scalar", "enum", "set"):
             self.w("%so.F(%s, %s);" % (pad, n, self.bits_expr(m, getter)))
         elif m.kind == "array":
